@@ -119,6 +119,23 @@ Proof.
 Qed.
 Print Assumptions C12_hashmap_iteration_each_binding_once.
 
+(* next(m) is the first binding in iteration order; next(m, k) is the binding that follows k's binding (so a
+   traversal through next visits exactly pairs()'s sequence); an absent key is stopped by the assertion. *)
+Theorem C12_hashmap_next_follows_iteration_order :
+  forall (K V : Type) (keqb : K -> K -> bool) (khash : K -> Z),
+  (forall a b, keqb a b = keqb b a) ->
+  (forall a b c, keqb a b = true -> keqb b c = true -> keqb a c = true) ->
+  (forall a b, keqb a b = true -> khash a = khash b) ->
+  forall m : hmap K V, hm_inv K V keqb khash m ->
+  hm_next K V keqb khash None m = Ok (nth_error (hm_abs K V m) 0) /\
+  forall k, match al_find K V keqb k (hm_abs K V m) with
+            | None => hm_next K V keqb khash (Some k) m = Trap TrapInvalidKey
+            | Some kv => exists p, nth_error (hm_abs K V m) p = Some kv /\
+                                   hm_next K V keqb khash (Some k) m = Ok (nth_error (hm_abs K V m) (S p))
+            end.
+Proof. exact hm_next_ok. Qed.
+Print Assumptions C12_hashmap_next_follows_iteration_order.
+
 (* removing the key just visited while iterating is safe: every original binding is visited exactly once,
    in the original order, and the resulting map is the original one minus the removed bindings. *)
 Theorem C12_hashmap_erase_during_iteration :
